@@ -7,6 +7,10 @@ use tracing::debug;
 
 use super::*;
 
+/// The cost of a plan that still contains a subquery or an `apply`. The executor can not run them,
+/// so any rewritten form has to win, even over empty tables where every other cost is zero.
+const NOT_EXECUTABLE: f32 = 1e12;
+
 /// The main cost function.
 pub struct CostFn<'a> {
     pub egraph: &'a EGraph,
@@ -21,6 +25,12 @@ impl egg::CostFunction<Expr> for CostFn<'_> {
         use Expr::*;
         let id = &self.egraph.lookup(enode.clone()).unwrap();
         let mut costs = |i: &Id| costs(*i);
+        // The cost of evaluating expressions on `n` rows. Expressions that can not be executed keep
+        // their cost when there is no row.
+        let mut per_row = |exprs: &Id, n: f32| match costs(exprs) {
+            c if c >= NOT_EXECUTABLE => c * n.max(1.0),
+            c => c * n,
+        };
         let rows = |i: &Id| self.egraph[*i].data.rows;
         let cols = |i: &Id| self.egraph[*i].data.schema.len() as f32;
         let nlogn = |x: f32| x * (x + 1.0).log2();
@@ -33,8 +43,8 @@ impl egg::CostFunction<Expr> for CostFn<'_> {
             // plan nodes
             Scan(_) | Values(_) | IndexScan(_) => build(),
             Order([_, c]) => nlogn(rows(c)) + build() + costs(c),
-            Filter([exprs, c]) => costs(exprs) * rows(c) + build() + costs(c),
-            Proj([exprs, c]) | Window([exprs, c]) => costs(exprs) * rows(c) + costs(c),
+            Filter([exprs, c]) => per_row(exprs, rows(c)) + build() + costs(c),
+            Proj([exprs, c]) | Window([exprs, c]) => per_row(exprs, rows(c)) + costs(c),
             Agg([exprs, c]) => costs(exprs) * rows(c) + build() + costs(c),
             HashAgg([keys, aggs, c]) => {
                 (hash(rows(id)) + costs(keys) + costs(aggs)) * rows(c) + build() + costs(c)
@@ -43,7 +53,7 @@ impl egg::CostFunction<Expr> for CostFn<'_> {
             Limit([_, _, c]) => build() + costs(c),
             TopN([_, _, _, c]) => (rows(id) + 1.0).log2() * rows(c) + build() + costs(c),
             Join([_, cond, l, r]) => {
-                costs(cond) * rows(l) * rows(r) + build() + costs(l) + costs(r)
+                per_row(cond, rows(l) * rows(r)) + build() + costs(l) + costs(r)
             }
             HashJoin([t, cond, lkey, rkey, l, r]) => {
                 let hash = match self.egraph[*t].nodes[0] {
@@ -65,10 +75,15 @@ impl egg::CostFunction<Expr> for CostFn<'_> {
                     + costs(l)
                     + costs(r)
             }
-            Apply([_, l, r]) => build() + costs(l) + rows(l) * costs(r),
+            Apply([_, l, r]) => NOT_EXECUTABLE + build() + costs(l) + rows(l) * costs(r),
             Insert([_, _, c]) | CopyTo([_, c]) => rows(c) * cols(c) + costs(c),
             Empty(_) => 0.0,
             Max1Row(c) => costs(c),
+            // subqueries
+            Exists(c) => NOT_EXECUTABLE + costs(c),
+            In([a, b]) if !self.egraph[*b].nodes.iter().any(|e| matches!(e, List(_))) => {
+                NOT_EXECUTABLE + costs(a) + costs(b)
+            }
             // expressions
             Column(_) | Ref(_) => 0.01, // column reference is almost free
             List(_) => enode.fold(0.01, |sum, id| sum + costs(&id)), // list is almost free
